@@ -6,14 +6,17 @@ VERIF = os.path.dirname(os.path.dirname(os.path.abspath(__file__)))
 
 # id -> (technique, level text, level note, design ref)
 _LAY = ("bounded-exhaustive exploration of label multisets x engine configurations (plus deep-narrow cluster families, "
-        "near-tie and epoch-magnitude slices), each executed on the real Force.compute(); ")
+        "near-tie and epoch-magnitude slices, skewed-cluster and two-group distance sweeps), each executed on the real Force.compute(), "
+        "and the same oracle at the two other entry points (removeOverlap() called directly, Timeline with the options as `labella`); ")
 _N = " Exact numbers of the run are in the evidence file (coverage.bounds, counters)."
 CLAIMED = {
     "C01": (_LAY + "all-pairs separation/order invariant",
-            "Small-scope exhaustive: every multiset of <=4 labels (<=5 with one width; thorough <=5 / <=7) over grids of positions and "
-            "widths incl. fractional widths, targets a few ulps apart and coordinates of 1e9/1.7e12, x 13-27 engine configurations + 3 "
-            "input-dependent ones; clusters of 5-16 and 50-200 labels (thorough: every size 1..200); every 4th case builds its nodes "
-            "the way Timeline does (width assigned after construction). The oracle is the property's own inequality on every pair of "
+            "Small-scope exhaustive: every multiset of <=4 labels (<=5 with one width; 6-7 on a 7-position grid under tight bounds; thorough "
+            "<=5 / <=7) over grids of positions and widths incl. fractional widths, targets a few ulps apart and coordinates of "
+            "1e9/1.7e12, x 16-30 engine configurations (incl. lineSpacing 0 with zero-width stubs) + 3 input-dependent ones; clusters of "
+            "5-16 and 50-200 labels (thorough: every size 1..200); a tied block of narrow labels plus one wide one with an outlier at "
+            "every distance; two groups at every distance under very low density; every 4th case builds its nodes the way Timeline "
+            "does (width assigned after construction). The oracle is the property's own inequality on every pair of "
             "every layer. Exhaustive inside the bound, silent about inputs outside the grids." + _N,
             "trusted: the invariant evaluator in mc/layout.py; float slack 1e-6 + 4e-16*|position|*(items+2)", "DESIGN.md sections 4 C01, 10"),
     "C02": (_LAY + "comparison with an exact isotonic least-squares reference model (PAVA over rationals)",
@@ -30,70 +33,79 @@ CLAIMED = {
             "Distributor.distribute, boundary-value and deep families, plus the engine scope through Force.compute()/getLayers(); "
             "structural invariant",
             "Every multiset of <=3 (thorough <=4; <=6 reduced) labels x all 540 distributor option sets, a boundary-value family "
-            "(required = budget*(1+-eps)), clusters of 5-9 labels, structural invariant (conservation, contiguity, complete stub "
-            "chains, payload, stub width, single-layer and capacity clauses) on the distributor's result and on the engine's "
-            "getLayers() over the C01 scope." + _N,
+            "(required = budget*(1+-eps)), clusters of 5-9 labels, distribute / Node.clone() / distribute-the-clones sequences, "
+            "structural invariant (conservation, contiguity, complete stub chains, payload, stub width, single-layer and capacity "
+            "clauses) on the distributor's result and on the engine's getLayers() over the C01 scope (capacity clauses with the layer "
+            "width the engine derives from its bounds)." + _N,
             "trusted: the structural invariant in mc/props/c04.py; capacity cases where density*layerWidth is inexact in binary and "
             "within 1e-9 of the need are counted, not judged", "DESIGN.md sections 4 C04, 10"),
     "C05": ("bounded-exhaustive exploration of complete small problem spaces (DAG and cyclic constraint graphs, weights, scales, "
             "relabellings, re-solving) on the real vpsc.Solver, decided by an exact weak-duality optimality certificate (max-flow "
             "multipliers) and an exact active-set QP reference",
             "Every instance of the stated small spaces (n<=3 with duplicates and 16 weight/scale vectors; n=4; thorough n=5 and "
-            "families to 60 variables; every multiset of <=3/4 directed edges incl. contradictory cycles; every pair of desired "
-            "vectors on the re-solve path) is solved by the real solver and checked for termination, feasibility, cost consistency "
+            "families to 60 variables and every DAG on 6 variables with <= 6 edges; every multiset of <=3/4 directed edges incl. "
+            "contradictory cycles; every pair of desired vectors on the re-solve path, on the same solver and on a new Solver over the "
+            "same objects) is solved by the real solver and checked for termination, feasibility, cost consistency "
             "and optimality: a dual lower bound evaluated in rationals proves the returned cost is within 1e-4 of optimal; rejections "
-            "are confirmed by the exact QP. Irregular DAGs with >= 6 variables are outside the scope (one seeded change escapes there)." + _N,
+            "are confirmed by the exact QP. Irregular DAGs with >= 7 variables, and violations inside a numeric window far below the value grid, are outside the scope (one seeded change escapes there)." + _N,
             "trusted: mc/oracles.py (dual bound arithmetic, qp_exact), self-tested against PAVA in ./setup", "DESIGN.md sections 4 C05, 10"),
     "C06": ("level-synchronous breadth-first search over API-call histories (set labels / re-present stale nodes / compute / "
-            "re-configure / other live engines, also on the same nodes / stand-alone distributor / append to the caller's list) on "
+            "re-configure / other live engines, also on the same nodes or on clones of them / stand-alone distributor / append to the caller's list / continue with clones) on "
             "the real Force engine with fingerprint-deduplicated states and a differential fresh-engine oracle computed from "
             "pristine module state, plus exhaustive enumeration of input permutations",
-            "E-HIST to depth 5 (thorough 8) over 20 operations; every compute() is compared with a fresh engine; every replay starts "
+            "E-HIST to depth 5 (thorough 8) over 27 operations; every compute() is compared with a fresh engine, work of another engine on "
+            "its own labels or on clones must leave the first engine's layout and layering as they were; every replay starts "
             "from the library's import-time module state; E-INPUT: every permutation of every label multiset (n<=3; n=4 partly in "
-            "quick) x configs, and all 720 orders of label sets whose decimal widths sum to the split threshold." + _N,
+            "quick) x configs, all 720 orders of label sets whose decimal widths sum to the split threshold, and of label sets under every budget inside the float-rounding window of their summed widths." + _N,
             "trusted: fingerprint only deduplicates (over-fine); reference = the library itself from a fresh start", "DESIGN.md sections 4 C06, 10"),
     "C07": ("bounded-exhaustive enumeration of datasets x directions x scales x domains x engine/layout options x back-ends, each "
             "exported by the real Timeline classes, parsed (SVG via ElementTree, TikZ via anchored regexes) and compared with an "
             "exact affine model of the caller's own data",
             "Every dataset sequence of <=2 (thorough <=3) data over a 36-letter alphabet per scale kind (numeric / datetime, date, "
-            "bare time; caller-supplied and default scale) x 48 configurations x 2 back-ends; the oracle checks counts, axis, dot and "
+            "bare time; caller-supplied and default scale; a custom timeFn accessor) x 80 configurations x 2 back-ends, plus axes of ~2000 and "
+            "~40000 units; the oracle checks counts, axis, dot and "
             "tick positions on one affine time function, link way-points layer by layer and end point, box sizes (datum's size plus "
             "padding; line height read off the drawing) and texts." + _N,
             "trusted: parsers and geometric model in mc/draw.py, mc/drawcases.py", "DESIGN.md sections 4 C07, 10"),
     "C08": ("bounded-exhaustive enumeration of datasets x directions x engine options x layer gaps x label paddings on the real "
             "export; rectangle disjointness/side/layer-order invariant",
-            "Every multiset of <=3 (thorough <=4) data over 24 letters x 4 directions x 5 engine option sets x 3 layer gaps, 3 label "
+            "Every multiset of <=3 (thorough <=4) data over 24 letters x 4 directions x 6 engine option sets x 3 layer gaps, 3 label "
             "paddings in rotation." + _N, "trusted: mc/draw.py parsers", "DESIGN.md sections 4 C08, 10"),
     "C09": ("bounded-exhaustive differential exploration: the same enumerated inputs through both real back-ends, parsed records "
             "compared field by field",
-            "C07's dataset scope x 48 configurations with 12 colour/border/tick/dot-radius variants in rotation; SVG and TikZ records "
+            "C07's dataset scope x 80 configurations with 15 colour/border/tick/dot-radius/canvas/latex variants in rotation, box sizes with many "
+            "significant digits, axes of ~2000 and ~40000 units; SVG and TikZ records "
             "must agree on axis, boxes, links point for point, dots, ticks, colours and texts." + _N,
             "trusted: mc/draw.py parsers, mc/uni.py", "DESIGN.md sections 4 C09, 10"),
     "C10": ("level-synchronous breadth-first search over construct/export histories on 5-6 timeline specs that together use every "
             "option group, every history replayed on a purged and re-imported library, states = fingerprints of instances plus all "
-            "labella module/class globals; every ordered pair of 20 default-scale timelines over all tick units; byte comparison with "
-            "fresh-process references",
+            "labella module/class globals; every ordered pair of 32 default-scale timelines over all tick units and the year-step thresholds; three exports in a row of one "
+            "timeline over a grid of data extents; byte comparison with fresh-process references",
             "All histories to depth 8 with one back-end per spec (thorough: both back-ends, 6 specs, depth 7) over new(X)/export(X), "
-            "and all 400 ordered pairs of the span-ladder timelines; the oracle is byte equality with the document produced alone in "
-            "a fresh interpreter. Custom tick-method tables, scale subclasses and in-place edits of a live timeline's options are not "
+            "all 1024 ordered pairs of the span-ladder timelines, and repeated exports for ~700 (thorough ~1400) data extents; the oracle is byte equality with the document produced alone in "
+            "a fresh interpreter. Scale subclasses, object lifetimes and in-place edits of a live timeline's options are not "
             "in the alphabet." + _N,
             "trusted: subprocess references; fingerprint over module globals (over-fine)", "DESIGN.md sections 4 C10, 10"),
     "C11": ("bounded-exhaustive enumeration of documented input shapes (date ladder x spans x value types x sizes; option forms x "
-            "directions x algorithms x bounds; adjacent-float numeric times) on the real constructors and export(); deep-narrow sweep "
-            "over cluster sizes",
+            "directions x algorithms x bounds; adjacent-float numeric times; records with foreign fields; rows of exactly touching labels) on the "
+            "real constructors and export(); deep-narrow sweep over cluster sizes",
             "No-exception / parses / one mark per datum / degenerate-domain clause on every enumerated shape (datetime, date, "
             "datetime with microseconds; spans 0, 1 ms .. 150 y); thorough adds every start day of 2019-2020 and 200-1000 labels with "
             "clusters up to 200; the 250-cluster RecursionError is a recorded known finding." + _N,
             "trusted: parsers; 10 s CPU horizon per export", "DESIGN.md sections 4 C11, 10"),
     "C12": ("exhaustive grid of domains/ranges/queries (incl. near-tie domains and queries just off the end points) against an "
             "exact rational affine map, constructor forms, plus breadth-first search over API-call histories "
-            "(domain/range/clamp/nice/copy on a pool of scales) with aliasing-aware state fingerprints",
-            "E-INPUT: all (domain, range, query) combinations of a 14-value float grid plus near-tie domains; E-HIST: every call "
-            "history up to depth 4 (thorough 6) over 17 operations on <=3 scales, each state rebuilt on fresh real objects; "
-            "invariants: setters set, reported end points map to reported range, no cross-scale interference." + _N,
+            "(domain/range/clamp/nice/interpolate/copy/deepcopy, getter read-modify-write, caller-kept lists, one-shot iterators on a pool of "
+            "scales) with aliasing-aware state fingerprints",
+            "E-INPUT: all (domain, range, query) combinations of a 14-value float grid plus near-tie domains; the map through the reported "
+            "end points after nice(m) for every ordered pair of the integers and halves -10..20; E-HIST: every call history up to depth 4 "
+            "(thorough 5; 6 for a 13-operation core alphabet) over 35 operations on <=3 scales, each state rebuilt on fresh real objects; "
+            "invariants: setters set, reported end points map to reported range (method and call form), clamped outputs stay in the "
+            "range, no cross-scale interference." + _N,
             "trusted: Fraction arithmetic; fingerprint only deduplicates, it is over-fine by construction", "DESIGN.md sections 4 C12, 10"),
     "C13": ("bounded-exhaustive enumeration of a mantissa x exponent grid of linear domains (incl. narrow ones) x every m in 1..100, "
-            "a boundary-value family around the step thresholds, and live-scale call sequences, on the real ticks()/tickFormat(); "
+            "boundary-value families around the step thresholds and beside the ticks at either end, live-scale call sequences, and process-wide "
+            "settings (decimal context, logging level), on the real ticks()/tickFormat(); "
             "tick-set invariants",
             "Every admissible ordered pair from the value grid x 101 counts; 43k domains on and beside the three step-switching "
             "thresholds; sequences on one live scale (ticks, nice / domain / near-by domain / copy, ticks; formatter kept across a "
@@ -101,37 +113,40 @@ CLAIMED = {
             "trusted: float tolerances stated in the module", "DESIGN.md sections 4 C13, 10"),
     "C14": ("bounded-exhaustive enumeration of linear domains (C13 grid) and time domains (calendar-critical start instants x span "
             "ladder x counts x orientations) on the real nice(); widening/roundness invariants with a calendar reference",
-            "Linear: the C13 grid x 10 counts; time: month-end/year-end/leap starts x 3 times of day x 38 spans x 6 counts x 2 "
+            "Linear: the C13 grid x 10 counts, also as piecewise (three-entry) domains and domains narrower than 1e-7 of their magnitude; time (also nice(count, skip)): month-end/year-end/leap starts x 3 times of day x 38 spans x 6 counts x 2 "
             "orientations; step measured through the public ticks()." + _N, "trusted: mc/cal.py (datetime/calendar arithmetic)",
             "DESIGN.md sections 4 C14, 10"),
     "C15": ("exhaustive enumeration of ordered pairs of domain instants (plus 1 ms .. 61 s domains) x ranges x query instants on the "
-            "real TimeScale, built in four call orders, against an exact affine map on epoch milliseconds",
-            "All ordered pairs of 41 (thorough 409) instants spanning 1900-2200 x 3 ranges x 11 queries (half of them instances of a "
+            "real TimeScale, built in six call orders (incl. caller-kept lists and one-shot iterators), against an exact affine map on epoch milliseconds",
+            "All ordered pairs of 120 (thorough 409) instants spanning 1900-2200 x 3 ranges x 11 queries (half of them instances of a "
             "datetime subclass); exact rational reference; round trip within 1 ms; agreement with LinearScale." + _N,
             "trusted: datetime arithmetic for naive epoch milliseconds", "DESIGN.md sections 4 C15, 10"),
     "C16": ("bounded-exhaustive enumeration of time domains (calendar-critical start instants x 42-rung span ladder x counts x "
-            "orientations) and scale/copy call sequences on the real TimeScale.ticks(); tick invariants with a calendar reference",
+            "orientations; spans on and beside count x table entry), scale/copy call sequences and plain requests after ticks(count, step) or after a "
+            "scale with its own method table, on the real TimeScale.ticks(); tick invariants with a calendar reference",
             "Every combination of the stated grids; oracle derives the calendar class from the smallest gap and checks every tick "
             "against R-CAL; count and gap-ratio bounds; sub-millisecond-per-tick domains; copies re-domained and asked for ticks in "
             "both orders." + _N, "trusted: mc/cal.py", "DESIGN.md sections 4 C16, 10"),
     "C17": ("complete enumeration of every day in the year set x 3 instants x 7 units x floor/ceil/round/offset and a grid of ranges "
             "(also through the plural aliases), against a calendar reference model (datetime/timedelta/calendar)",
             "Thorough covers every day 1900-2200, all k in 0..400 for 12 years and three enumerations of > 10^6 boundaries; quick covers "
-            "9 boundary years; ranges over month-end/week-boundary starts x 5 spans x steps 1..12." + _N,
+            "9 boundary years; ranges over month-end/week-boundary starts x 6 spans x steps 1..12, 13..61 and 100..3600; one year of operations "
+            "under three process-wide settings (calendar.setfirstweekday, decimal context, logging level)." + _N,
             "trusted: mc/cal.py; week numbering for dt>1 judged numbering-agnostically", "DESIGN.md sections 4 C17, 10"),
-    "C18": ("exhaustive re-execution of enumerated calendar/scale/tick/nice/export computations under 5 process time zones (tzset) "
-            "incl. every minute around the 2021 DST transitions and every month boundary 1900-2100; byte comparison with the UTC run",
-            "About 41,000 (quick) computations x 4 non-UTC zones; any byte of difference is a violation." + _N,
+    "C18": ("exhaustive re-execution of enumerated calendar/scale/tick/nice/export computations under 8 process time zones (tzset; incl. a "
+            "leap-second zone file) incl. every minute around the 2021 DST transitions, every month boundary 1900-2100, every date 1900-2037 on "
+            "which one of the zones changes its UTC offset, and fold=1 datetimes; byte comparison with the UTC run",
+            "About 105,000 (quick) computations x 7 non-UTC zones; any byte of difference is a violation." + _N,
             "trusted: tzset equivalence with a process started under TZ; tzdata of the image", "DESIGN.md sections 4 C18, 10"),
-    "C19": ("complete enumeration of all 1,112,064 Unicode scalar values in 4 contexts plus all strings up to length 4 (5) over mixed "
-            "alphabets on the real uni2tex, and strings up to length 2 (3) through TimelineTex.export; character-exact read-back "
+    "C19": ("complete enumeration of all 1,112,064 Unicode scalar values in 4 contexts, every ordered pair of the 112 combining diacritical marks, "
+            "plus all strings up to length 4 (5) over mixed alphabets on the real uni2tex, and strings up to length 2 (3) through TimelineTex.export; character-exact read-back "
             "reference",
             "E-FULL over code points, bounded-exhaustive over strings (TeX specials, white space, combining sequences, compatibility "
             "characters); accent commands are read back as combining marks, compared with the input under NFD and aligned with it "
             "character by character; ASCII must be unchanged." + _N,
             "trusted: unicodedata of the interpreter; mc/uni.py", "DESIGN.md sections 4 C19, 10"),
     "C20": ("exhaustive enumeration of the finite domain (all indices 0..10^6, all hex codes, back-to-back code sequences, one "
-            "750-3000 label document) on the real functions",
+            "750-3000 label document and one beyond the first four-letter name, 18300-19000 labels) on the real functions",
             "Complete enumeration: every index 0..10^6 against the shortlex sequence, every 3-digit code and (thorough) every 6-digit "
             "code in both cases against integer parsing; call sequences of codes sharing a numeric value; a TikZ document whose macro "
             "names must be the shortlex names, pairwise distinct." + _N,
